@@ -165,8 +165,28 @@ def specIdentity (h : List Op) (o : Obs) : Option String :=
         if j > a.idx then some "emitted-before-its-login" else
         if a.identity ≠ identOf l then some "identity-of-another-login" else none
 
+/-- a login that was superseded never lends its identity: when a session's opening record is the only
+LOGIN-type record of that session and the only one with its PID, every event of the session carries the
+identity of the LAST valid login with that PID delivered up to the operation that wrote the event (a newer
+login replaces one that is still waiting, and re-binds a session already bound) -/
+def specLatest (h : List Op) (o : Obs) : Option String :=
+  o.acts.findSome? fun (a : ObsAction) =>
+    match opener h a.aid with
+    | none => none
+    | some (_, rec) =>
+      match atoi rec.pidTok with
+      | none => none
+      | some p =>
+        if count (fun r => r.2.ses = a.aid) (loginRecs h) ≠ 1 ||
+           count (fun r => atoi r.2.pidTok = some p) (loginRecs h) ≠ 1 then none else
+        match ((loginOps h).filter fun l => l.2.pid = p && l.2.valid && l.1 ≤ a.idx).getLast? with
+        | none => none
+        | some (_, l) => if a.identity ≠ identOf l then some "identity-of-a-superseded-login" else none
+
 def specC01 (h : List Op) (o : Obs) : Option String :=
-  if !wfNoReuse h then none else specIdentity h o
+  match (if !wfNoReuse h then none else specIdentity h o) with
+  | some c => some c
+  | none => specLatest h o
 
 /-- C04 makes no assumption on the history beyond PID/session reuse being C09's subject -/
 def specC04 (h : List Op) (o : Obs) : Option String :=
